@@ -13,6 +13,10 @@ sys.setrecursionlimit(20000)
 # =============================================================================
 # Path context
 
+import os as _os
+CROSS_EVERY = int(_os.environ.get('MIRSE_CROSS_EVERY', '0') or 0)
+
+
 class Infeasible(Exception):
     """Raised when an `assume` makes the current path infeasible."""
 
@@ -179,11 +183,36 @@ class Ctx:
             self.solver.add(z3.Not(prop))
             r = self._check()
             self._stat('validity_queries')
+            if CROSS_EVERY and self.stats.get('validity_queries', 0) % CROSS_EVERY == 0:
+                self._cross_check(r)
             if r == z3.unsat:
                 return True, None
             return False, self.solver.model()
         finally:
             self.solver.pop()
+
+    def _cross_check(self, r):
+        """Second opinion on a deciding query: the solver state (path condition + negated obligation) is exported as SMT-LIB2 and
+        given to cvc5 (and to the system z3 4.8.12, another code base than the 5.x Python binding).  A definite answer that
+        differs makes the run inconclusive; timeouts / unknowns of the second solver are counted, not trusted."""
+        import subprocess
+        text = '(set-logic ALL)\n' + self.solver.to_smt2()
+        want = 'unsat' if r == z3.unsat else 'sat'
+        for name, cmd in (('cvc5', ['cvc5', '--lang', 'smt2', '--tlimit', '20000']), ('z3-4.8', ['/usr/bin/z3', '-in', '-T:20'])):
+            t = time.time()
+            try:
+                p = subprocess.run(cmd, input=text.encode(), stdout=subprocess.PIPE, stderr=subprocess.PIPE, timeout=40)
+                out = p.stdout.decode('utf-8', 'replace')
+            except Exception as e:
+                out = 'error: %r' % (e,)
+            self._stat('cross_s', time.time() - t)
+            first = out.strip().split('\n')[0].strip() if out.strip() else ''
+            if '(error' in out or first not in ('sat', 'unsat'):
+                self._stat('cross_%s_inconclusive' % name)
+                continue
+            self._stat('cross_%s_checked' % name)
+            if first != want:
+                raise Unsupported('solver disagreement on a deciding query: z3 (Python binding) says %s, %s says %s' % (want, name, first))
 
     def satisfiable(self, prop=None):
         self.solver.push()
